@@ -187,7 +187,10 @@ FsOp(kind, ok, P) ==
 
 BackupReflectsData(P) == P.backup # backup => (file # "absent" /\ P.backup = file)
 
-BackupOK(ok, P) == BackupReflectsData(P) /\ Frame("Backup", P)
+\* a backup that reports failure has stored nothing: the copy taken earlier is what a later restore brings back
+RefusedBackupKeepsCopy(ok, P) == ~ok => P.backup = backup
+
+BackupOK(ok, P) == BackupReflectsData(P) /\ RefusedBackupKeepsCopy(ok, P) /\ Frame("Backup", P)
 
 Backup(ok, P) ==
     /\ BackupOK(ok, P)
